@@ -212,6 +212,7 @@ type ProxyOpts struct {
 	BackendRespond      func(w http.ResponseWriter, r *http.Request, rec *Recorded)
 	ForwardURL          string
 	FlushInterval       time.Duration
+	NoFlushInterval     bool // ReverseProxy.FlushInterval = 0 (no periodic flushing) instead of the 100ms default
 	Ctx                 context.Context
 	Listener            net.Listener // default: a fresh *Listener
 	// Build, when set, constructs the server (binary-wiring level: fingerproxy.defaultProxyServer with
@@ -300,7 +301,7 @@ func StartProxy(o ProxyOpts) *Proxy {
 	}
 	u, _ := url.Parse(fu)
 	fi := o.FlushInterval
-	if fi == 0 {
+	if fi == 0 && !o.NoFlushInterval {
 		fi = 100 * time.Millisecond
 	}
 	p.Handler = reverseproxy.NewHTTPHandler(u, &httputil.ReverseProxy{
